@@ -185,9 +185,13 @@ Lemma reload_rest sv :
   g_cooloff (sv_config (reload sv)) = g_cooloff (sv_config sv).
 Proof. repeat split. Qed.
 
-(* the one configuration field that save + load loses (open finding: snapshot.proto has no field for it) *)
-Lemma reload_drops_whitelisted_origins sv : g_whitelistedOrigins (sv_config (reload sv)) = ∅.
+(* the whitelisted origins are part of the snapshot (repaired: snapshot.proto field 12) *)
+Lemma reload_keeps_whitelisted_origins sv :
+  g_whitelistedOrigins (sv_config (reload sv)) = g_whitelistedOrigins (sv_config sv).
 Proof. reflexivity. Qed.
+
+Lemma reload_config sv : sv_config (reload sv) = sv_config sv.
+Proof. unfold reload. cbn [sv_config]. destruct (sv_config sv); reflexivity. Qed.
 
 (* save + load keeps the invariant *)
 Lemma InvM_sessions_pointwise (sv sv' : server) (f : session -> session) :
